@@ -36,6 +36,7 @@ RULE = ("histories of 5..50 parse calls on one shared (lexer, parser) pair and o
         "distinct (history prefix digest, probe); non-trivial = history contains at least one "
         "raising call before the probe")
 RULE += (" " + 'Also: near-twin corpus entries, inputs with two error causes, failed AliasRewriter constructions followed by probes.')
+RULE += (" " + 'Poisons also truncated at every character (inside tokens); probes with every quoted literal kind.')
 ASSUMPTIONS = ["sharing one lexer instance between threads is not claimed by the property",
                "model outcome = fresh ODataLexer()/ODataParser() in the same interpreter, and "
                "across interpreters via outcome digests"]
